@@ -49,6 +49,34 @@ Located(lc, raw) ==
                 [] lc.x.k = "all" -> [j \in 1..Len(raw.feats) |-> RegionOf(raw.feats[j].loc)]
   IN IF lc.m.k = "none" THEN base ELSE [j \in 1..Len(base) |-> R!ResizeC(base[j], lc.m)]
 
+(***************************************************************************)
+(* The locator clause of C08, stated on denotations: the regions returned  *)
+(* for 'X@M' are, in order, the regions of X, each denoting the slice      *)
+(* [lo,hi) of its spliced coordinate that M selects (Region!ResizeDen);    *)
+(* a region without a direction (zero length first/last segment) is only   *)
+(* required to be returned, not to be resized in a particular way.         *)
+(***************************************************************************)
+BaseRegions(lc, raw) ==
+  CASE lc.x.k = "mod" -> <<R!Seg(0, Len(raw.res))>>
+    [] lc.x.k = "loc" -> <<RegionOf(lc.x.t)>>
+    [] lc.x.k = "sel" -> LET fs == SelectSeq(raw.feats, LAMBDA f : f.key = lc.x.key)
+                         IN [j \in 1..Len(fs) |-> RegionOf(fs[j].loc)]
+    [] lc.x.k = "all" -> [j \in 1..Len(raw.feats) |-> RegionOf(raw.feats[j].loc)]
+WellRegion(r) == r.k \in {"seg", "regs"} /\ (r.k = "seg" \/ \A j \in 1..Len(r.xs) : r.xs[j].k \in {"seg", "regs"})
+LocatorVerdicts(lc, raw, got) ==
+  LET base == BaseRegions(lc, raw)
+      mods == (IF lc.x.k = "mod" THEN <<lc.x.m>> ELSE <<>>) \o (IF lc.m.k = "none" THEN <<>> ELSE <<lc.m>>)
+      one(j) ==
+        LET b == base[j]  g == got[j] IN
+        IF ~WellRegion(g) THEN {"locator-shape"}
+        ELSE IF mods = <<>> THEN (IF R!Splice(g) # R!Splice(b) \/ (R!RLen(b) = 0 /\ R!Segs(g) # R!Segs(b)) THEN {"locator-region"} ELSE {})
+        ELSE IF Len(mods) = 1 THEN (IF ~R!Directed(b) THEN {} ELSE IF R!Splice(g) # R!ResizeDen(b, mods[1]) THEN {"locator-resized"} ELSE {})
+        ELSE LET mid == R!ResizeC(b, mods[1]) IN
+             IF ~R!Directed(b) \/ ~R!Directed(mid) THEN {}
+             ELSE IF R!Splice(g) # R!ResizeDen(mid, mods[2]) THEN {"locator-resized"} ELSE {}
+  IN IF Len(got) # Len(base) THEN {"locator-count"}
+     ELSE UNION {one(j) : j \in 1..Len(base)}
+
 HeadOf(r) == IF r.k = "seg" THEN r.h ELSE (IF r.xs = <<>> THEN 0 ELSE R!Segs(r)[1].h)
 CoveredPos(rs) == UNION {R!Covered(rs[j]) : j \in 1..Len(rs)}
 InRange(rs, L) == \A j \in 1..Len(rs) : \A q \in 1..Len(R!Segs(rs[j])) :
